@@ -1,9 +1,97 @@
 import Lean.Data.Json
+import PydjinniModel.Sys.Cli
+import PydjinniModel.Drv.C17
 /-! Driver handlers for property C19: `handle op request` answers one JSON request. -/
 namespace Pydjinni.Drv.C19
-open Lean
+open Lean Pydjinni.Sys Pydjinni.Drv.C17
 
-def handle (op : String) (_req : Json) : Except String Json :=
-  throw s!"unknown op {op}"
+def raisedOf (j : Json) : Except String StageResult := do
+  let k ← j.getObjValAs? String "kind"
+  match k with
+  | "ok" => pure .ok
+  | "app" => pure (.raised (.app (← j.getObjValAs? Nat "code")))
+  | "applist" => pure (.raised (.appList (← j.getObjValAs? (List Nat) "codes")))
+  | "usage" => pure (.raised .usage)
+  | "crash" => pure (.raised (.other ((j.getObjValAs? String "cls").toOption.getD "?")))
+  | _ => throw s!"unknown stage result {k}"
+
+def raisedJ : Raised → Json
+  | .app c => Json.mkObj [("kind", "app"), ("code", c)]
+  | .appList cs => Json.mkObj [("kind", "applist"), ("codes", Json.arr (cs.map (fun c => Json.num (JsonNumber.fromNat c))).toArray)]
+  | .usage => Json.mkObj [("kind", "usage")]
+  | .other c => Json.mkObj [("kind", "crash"), ("cls", c)]
+
+def stageJ (s : Stage) : Json :=
+  match s.result with
+  | .ok => Json.mkObj [("kind", "ok")]
+  | .raised r => raisedJ r
+
+def eventJ : Event → Json
+  | .cleaned t => Json.arr #["cleaned", t]
+  | .generated t => Json.arr #["generated", t]
+  | .report => Json.arr #["report"]
+
+def exitJ (e : Exit) : Json := Json.mkObj [("code", e.code), ("traceback", e.traceback)]
+
+def worldOf (j : Json) : Except String World := do
+  let valid ← j.getObjValAs? Bool "valid"
+  let front ← j.getObjVal? "front" >>= raisedOf
+  let kinds ← (← j.getObjValAs? (List String) "kinds").mapM kindOf
+  let gf ← j.getObjVal? "gen_fail"
+  let gfl : List (String × Raised) ← (match gf with
+    | .obj kvs => kvs.toList.filterMapM (fun (k, v) => do
+        match ← raisedOf v with
+        | .raised r => pure (some (k, r))
+        | .ok => pure none)
+    | _ => pure [])
+  let report ← j.getObjValAs? Bool "report"
+  let dump ← (match j.getObjVal? "ast_dump" with | .ok d => raisedOf d | .error _ => pure .ok)
+  pure { astDump := dump, validate := fun _ => valid, env := envTree (← varsOf j "env"), dotenv := envTree (← varsOf j "dotenv"), front := front,
+         kinds := kinds, genFail := fun t => (gfl.find? (fun p => p.1 == t)).map (·.2), reportConfigured := report }
+
+def commandOf (j : Json) : Except String Sys.Command := do
+  let k ← j.getObjValAs? String "kind"
+  match k with
+  | "none" => pure .none
+  | "unknown" => pure .unknown
+  | "generate" => pure (.generate (← j.getObjValAs? Bool "args_ok") (← j.getObjValAs? Bool "clean") (← j.getObjValAs? (List String) "targets"))
+  | _ => throw s!"unknown command {k}"
+
+def invOf (req : Json) : Except String Invocation := do
+  pure { topOk := ← req.getObjValAs? Bool "top_ok", options := ← req.getObjValAs? (List String) "options",
+         config := ← req.getObjVal? "config" >>= fileOf, command := ← req.getObjVal? "command" >>= commandOf,
+         debug := (req.getObjValAs? Bool "debug").toOption.getD false }
+
+def optRaisedJ : Option Raised → Json
+  | some r => raisedJ r
+  | none => Json.null
+
+def handle (op : String) (req : Json) : Except String Json :=
+  match op with
+  | "c19.run" => do
+    let inv ← invOf req
+    let w ← req.getObjVal? "world" >>= worldOf
+    let st := cliStages inv w
+    let api : Json := match inv.command, foldOptions inv.options [] with
+      | .generate _ clean targets, .ok opts =>
+        let a := apiStages inv.config opts clean targets w
+        Json.mkObj [("first", optRaisedJ (firstRaised a)), ("events", Json.arr ((eventsOf a).map eventJ).toArray)]
+      | _, _ => Json.null
+    pure (Json.mkObj [("exit", exitJ (exitOf st)), ("events", Json.arr ((eventsOf st).map eventJ).toArray),
+      ("stages", Json.arr (st.map stageJ).toArray), ("dom", cliDom inv w), ("api", api)])
+  | "c19.spec" => do
+    -- specification on the implementation's observation
+    let usage ← req.getObjValAs? Bool "usage"
+    let first ← (match req.getObjVal? "first" with
+      | .ok .null => pure none
+      | .ok j => do
+        match ← raisedOf j with
+        | .raised r => pure (some r)
+        | .ok => pure none
+      | .error _ => pure none)
+    let code ← req.getObjValAs? Nat "code"
+    let tb ← req.getObjValAs? Bool "traceback"
+    pure (Json.mkObj [("holds", specExit usage first ⟨code, tb⟩), ("documented", isDocumentedCode code)])
+  | _ => throw s!"unknown op {op}"
 
 end Pydjinni.Drv.C19
